@@ -36,6 +36,8 @@ const c19Mark = "S"
 type canaries struct {
 	strs []string
 	nums []string // integer-part digit strings
+	// keys are the canaries used as attribute names of okey / okeys / onest
+	keys []string
 }
 
 func newCanaryStr(r *rand.Rand) string {
@@ -130,6 +132,7 @@ func c19Scope(r *rand.Rand, sc *gen.Scope, cs *canaries) []string {
 	{
 		k1, k2, k3 := newCanaryStr(r), newCanaryStr(r), newCanaryStr(r)
 		cs.strs = append(cs.strs, k1, k2, k3)
+		cs.keys = []string{k1, k2, k3}
 		set("okey", cty.ObjectVal(map[string]cty.Value{k1: cty.True}).Mark(c19Mark))
 		set("okeys", cty.ObjectVal(map[string]cty.Value{k2: cty.True, k3: cty.NumberIntVal(1)}).Mark(c19Mark))
 		set("onest", cty.ObjectVal(map[string]cty.Value{"auth": cty.ObjectVal(map[string]cty.Value{k1: cty.NumberIntVal(1)}).Mark(c19Mark)}))
@@ -344,6 +347,12 @@ var c19Directed = []string{
 	`okey.nope`, `okey + 1`, `"${okey}"`, `"x${okey}"`, `[for v in [1]: v if okey]`, `okeys.nope`, `okeys[0]`, `onest.auth.nope`, `onest + 1`, `upper(okey)`, `okey ? 1 : 2`, `okey && true`,
 	`f ? {auth = {(s) = 1}} : {auth = {zz = "x", q = [1]}}`, `f ? [{(s) = 1}] : [{b = "x", c = [1]}]`, `f ? {a = {b = {(s) = [1]}}} : {a = {b = {c = "x", d = 1}}}`, `true ? {x = okey} : {x = {q = [1], r = 2}}`,
 	`true ? {x = [okey]} : {x = [{q = [1]}]}`, `f ? onest : {auth = {q = [1], r = "x"}}`, `f ? [onest.auth] : [{q = [1]}]`, `true ? {(s) = [1]} : {other = "x"}`,
+	// attribute names that are ALMOST a secret attribute name (@NEAR1@ = the name of okey's
+	// attribute without its last character, @NEAR2@ = one of okeys' names with one
+	// character changed, @NEARS@ = the content of s without its last character)
+	`okey.@NEAR1@`, `okeys.@NEAR2@`, `onest.auth.@NEAR1@`, `[for v in [okey]: v.@NEAR1@]`, `okey[*].@NEAR1@`, `{(s) = 1}.@NEARS@`, `{for k in [s]: k => 1}.@NEARS@`, `[okeys][0].@NEAR2@`, `okey["@NEAR1@"]`, `okeys["@NEAR2@"]`,
+	// JSON syntax
+	`JSON:{"${s}": 1, "${s}": 2}`, `JSON:{"${s}": 1, "${s}${t}": 2, "${s}x": 3}`, `JSON:{"a": "${okey.@NEAR1@}"}`, `JSON:{"${s}": "${s + 1}"}`, `JSON:["${lst[s]}", {"${n}": "${-s}"}]`,
 	`"${s}" + 1`, `"${n}x" * 2`, `("${n}") + s`, `upper("${n}") - 1`, `{(upper(s)) = 1}["x"]`, `{"${s}" = 1}.nope`,
 }
 
@@ -355,17 +364,36 @@ func c19DirectedCase(c *core.Case, src string) {
 	if _, ok := sc.Vars["nul"]; !ok {
 		sc.Set("nul", cty.NullVal(cty.DynamicPseudoType))
 	}
-	he, pd := hclsyntax.ParseExpression([]byte(src), "p.hcl", hcl.InitialPos)
-	if pd.HasErrors() {
-		panic("C19 directed program does not parse: " + src)
+	tpl := src
+	if len(cs.keys) == 3 && len(cs.strs) > 0 {
+		k2 := []byte(cs.keys[1])
+		k2[len(k2)-3] = '_'
+		src = strings.NewReplacer("@NEAR1@", cs.keys[0][:len(cs.keys[0])-1], "@NEAR2@", string(k2), "@NEARS@", cs.strs[0][:len(cs.strs[0])-1]).Replace(src)
+	}
+	var he hcl.Expression
+	filename := "p.hcl"
+	if strings.HasPrefix(src, "JSON:") {
+		src = strings.TrimPrefix(src, "JSON:")
+		filename = "p.json"
+		je, pd := hcljson.ParseExpression([]byte(src), filename)
+		if pd.HasErrors() {
+			panic("C19 directed JSON program does not parse: " + src)
+		}
+		he = je
+	} else {
+		ne, pd := hclsyntax.ParseExpression([]byte(src), filename, hcl.InitialPos)
+		if pd.HasErrors() {
+			panic("C19 directed program does not parse: " + src)
+		}
+		he = ne
 	}
 	c.SetInput(src + "\nSCOPE: " + scopeStr(sc))
 	_, d := he.Value(evalCtx(sc))
 	c.Evals(1)
 	c.Count("route:directed")
 	c19Bound = map[string]bool{"v": true, "k": true}
-	if c19Check(c, cs, d, []byte(src), "p.hcl", "evaluating "+src, func() string { return "directed:" + src }) && len(d) > 0 {
-		c.NonTrivial("directed:" + src)
+	if c19Check(c, cs, d, []byte(src), filename, "evaluating "+src, func() string { return "directed:" + tpl }) && len(d) > 0 {
+		c.NonTrivial("directed:" + tpl)
 	}
 }
 
@@ -393,6 +421,13 @@ var c19BodyTpls = []c19BodyTpl{
 	{Name: "dyn-content-error-elem-marked", Src: "dynamic \"blk\" {\n  for_each = mp\n  content {\n    v = blk.value + blk.key\n  }\n}\n", Spec: blkSpecOf("list"), Dyn: true},
 	{Name: "dyn-content-wrong-type", Src: "dynamic \"blk\" {\n  for_each = lst\n  content {\n    v = [blk.value]\n  }\n}\n", Spec: blkSpecOf("list"), Dyn: true},
 	{Name: "dyn-iterator-in-nested", Src: "dynamic \"blk\" {\n  for_each = mp\n  iterator = it\n  content {\n    v = it.key.x\n  }\n}\n", Spec: blkSpecOf("list"), Dyn: true},
+	{Name: "attr-map-element-not-convertible", Src: "a = {(s) = \"notanumber\", plain = 1}\n", Spec: func() hcldec.Spec { return &hcldec.AttrSpec{Name: "a", Type: cty.Map(cty.Number)} }},
+	{Name: "attr-map-element-wrong-kind", Src: "a = {(s) = {}}\n", Spec: func() hcldec.Spec { return &hcldec.AttrSpec{Name: "a", Type: cty.Map(cty.String)} }},
+	{Name: "attr-nested-map-element-not-convertible", Src: "a = {inner = {(s) = \"x\"}}\n", Spec: func() hcldec.Spec {
+		return &hcldec.AttrSpec{Name: "a", Type: cty.Object(map[string]cty.Type{"inner": cty.Map(cty.Bool)})}
+	}},
+	{Name: "attr-marked-object-variable-to-map", Src: "a = okey\n", Spec: func() hcldec.Spec { return &hcldec.AttrSpec{Name: "a", Type: cty.Map(cty.List(cty.String))} }},
+	{Name: "blockattrs-map-element-not-convertible", Src: "blk {\n  x = {(s) = \"notanumber\"}\n}\n", Spec: func() hcldec.Spec { return &hcldec.BlockAttrsSpec{TypeName: "blk", ElementType: cty.Map(cty.Number)} }},
 	{Name: "blockattrs-wrong-type", Src: "blk {\n  x = s\n  y = lst\n}\n", Spec: func() hcldec.Spec { return &hcldec.BlockAttrsSpec{TypeName: "blk", ElementType: cty.Number} }},
 	{Name: "validate", Src: "a = s\n", Spec: func() hcldec.Spec {
 		return &hcldec.ValidateSpec{Wrapped: &hcldec.AttrSpec{Name: "a", Type: cty.String}, Func: func(v cty.Value) hcl.Diagnostics {
